@@ -12,6 +12,9 @@ for p in props:
         na.append({"property_id": pid, "reason": "no check registered yet: model and harness for this property are not built (see DESIGN.md section 4 for the plan)"})
         continue
     c = json.load(open(cp))
+    if not c.get("ready"):
+        na.append({"property_id": pid, "reason": "check under construction (model/harness exist but are not yet stable on the unchanged tree)"})
+        continue
     if c.get("not_applicable"):
         na.append({"property_id": pid, "reason": c["not_applicable"]})
         continue
